@@ -605,7 +605,8 @@ def t_loop_progress(facts, res, tier):
                     mp, kn = mm.group(1), mm.group(2) or mm.group(3)
                     body_nodes = list(walk(node["body"]))
                     renames = [x for x in body_nodes if x.get("k") == "assign" and expr_text(x["l"]).strip() == kn and x["r"].get("k") == "macro" and x["r"].get("name") == "format"]
-                    steps = [expr_text(x["l"]).replace(" ", "") for x in body_nodes if x.get("k") == "assignop" and x.get("op") == "+" and x["r"].get("k") == "lit" and isinstance(x["r"].get("v"), int) and x["r"]["v"] >= 1]
+                    # the count moves on every pass: the increment is a statement of the loop body itself, not of a branch inside it
+                    steps = [expr_text(x["l"]).replace(" ", "") for x in node["body"].get("stmts", []) if x.get("k") == "assignop" and x.get("op") == "+" and x["r"].get("k") == "lit" and isinstance(x["r"].get("v"), int) and x["r"]["v"] >= 1]
                     grows = [c for c in steps if renames and any(c in expr_text(r["r"]).replace(" ", "") for r in renames)]
                     touches = [x for x in body_nodes if x.get("k") == "mcall" and x["method"] in ("insert", "remove", "clear", "retain") and expr_text(x["recv"]).replace(" ", "") == mp]
                     exits = [x for x in body_nodes if x.get("k") in ("continue",)]
